@@ -140,7 +140,7 @@ func vC02Mac(freeName, freeValue, freeTS bool, sigKind int, otherSeed, extraPart
 }
 
 // one field tampered at a time
-// verif: unwind=8 strlen=6 concretize=4 paths=4000 abstractlen novalidate
+// verif: unwind=8 strlen=6 concretize=4 paths=4000 abstractlen novalidate tstrlen=7
 func vh_C02_mac_one() {
 	switch ndChoice("tamper", 9) {
 	case 0:
@@ -165,7 +165,7 @@ func vh_C02_mac_one() {
 }
 
 // several fields tampered at once
-// verif: unwind=8 strlen=6 concretize=4 tiers=thorough paths=6000 abstractlen novalidate
+// verif: unwind=8 strlen=6 concretize=4 tiers=thorough paths=6000 abstractlen novalidate tstrlen=7
 func vh_C02_mac_multi() {
 	vC02Mac(ndBool("free-name"), ndBool("free-value"), ndBool("free-ts"), ndChoice("sig-kind", 4), false, ndBool("extra-part"))
 }
